@@ -58,7 +58,7 @@ HEX_LOOP = '''loop { proof { lemma_hex_unfold(rem, hex_string_lexer.pos as int);
 UNIT = {
  'name': 'parser_obj',
  'doc': 'object grammar (parser/mod.rs, parse_object.rs) against an ISO 32000-1 7.3 object function over the token function of unit lexer',
- 'rlimit': 60, 'timeout': 1800,
+ 'rlimit': 200, 'timeout': 2400,
  'deviations': {
    'DEV_STREAM_KEYWORD_COMMENT_NOT_SKIPPED': 'known finding of unit lexer (Lexer::next_stream does not skip a comment before the keyword `stream`); inherited through the restated contract of next_stream',
    'DEV_DICT_KEY_NOT_DECODED': 'ISO 7.3.5/7.3.7: a dictionary key is a name, `#xx` stands for the byte xx; parse_dictionary_object takes the raw token bytes (`/A#42` is read as the key "A#42", not "AB")',
